@@ -406,6 +406,13 @@ func (e *Engine) runPath(w *Worker, cfg *EntryCfg, fn *ssa.Function, dec []Decis
 	}
 	res = p.res
 	defer func() {
+		if len(p.threads) > 0 {
+			// park-and-kill the harness threads before anything else touches the path
+			func() {
+				defer func() { recover() }()
+				p.coKillAll()
+			}()
+		}
 		res.Steps = p.steps
 		if len(p.pc) > 0 && res.Status == "done" {
 			res.PCSample = Pretty(p.tt.And(p.pc...), 400)
